@@ -1213,11 +1213,11 @@ func r3keep(r int) bool { return r%3 != 0 }
 
 func c15Scenarios(c *core.Ctx, race bool) []core.Scenario {
 	var out []core.Scenario
-	for i := 0; i < c.Pick(8, 32); i++ {
+	for i := 0; i < c.Pick(14, 40); i++ {
 		if race && i >= 2 {
 			break
 		}
-		out = append(out, c15PoolChurn(fmt.Sprintf("pool-churn-%d-race%v", i, race), c.Pick(400, 1500), c.Seed*67+int64(i)))
+		out = append(out, c15PoolChurn(fmt.Sprintf("pool-churn-%d-race%v", i, race), c.Pick(800, 2500), c.Seed*67+int64(i)))
 	}
 	reps := c.Pick(1, 5)
 	if race {
